@@ -58,9 +58,36 @@ def name_from(w: World, a: int):
     return NAME_POOL[a % len(NAME_POOL)]
 
 
+REJECTED_TENSOR_NAME = "bad\ud800name"  # a str the protobuf-backed tensor class cannot store
+
+
+class PickyTensor(ir.Tensor):
+    """A tensor whose name setter rejects some names (fault at the TensorProtocol seam)."""
+
+    @property
+    def name(self):
+        return self.__dict__.get("_picky_name")
+
+    @name.setter
+    def name(self, value):
+        if value is not None and value.startswith("node_"):
+            raise ValueError(f"this tensor backend cannot be named {value!r}")
+        self.__dict__["_picky_name"] = value
+
+
 def small_tensor(w: World, a: int, name=None):
     arr = np.arange((a % 3) + 1, dtype=np.float32) + (a % 5)
-    t = ir.Tensor(arr, name=name)
+    kind = (a // 15) % 5
+    if kind == 3:
+        # protobuf-backed tensor, as in every deserialized model: its name setter validates
+        import onnx
+
+        t = ir.serde.TensorProtoTensor(onnx.numpy_helper.from_array(arr, name=name or ""))
+    elif kind == 4 and not (name or "").startswith("node_"):
+        t = PickyTensor(arr)
+        t.name = name
+    else:
+        t = ir.Tensor(arr, name=name)
     w.reg(t)
     return t
 
@@ -241,7 +268,14 @@ def op_extend(w, a, b, c, d):
     cont = C(w, a)
     if cont is None:
         return None
-    cont.extend(planted_nodes(w, cont, b, d, _valid_for(cont)))
+    nodes = planted_nodes(w, cont, b, d, _valid_for(cont))
+    # any Iterable[Node] is accepted: sometimes pass a one-shot iterator / generator
+    if (d >> 13) % 3 == 1:
+        cont.extend(iter(nodes))
+    elif (d >> 13) % 3 == 2:
+        cont.extend(n for n in nodes)
+    else:
+        cont.extend(nodes)
 
 
 def _anchor(w, cont, c, d):
@@ -259,7 +293,8 @@ def op_insert_before(w, a, b, c, d):
     if anchor is None:
         return None
     nodes = planted_nodes(w, cont, b, d, _valid_for(cont))
-    cont.insert_before(anchor, nodes[0] if len(nodes) == 1 and d & 1 else nodes)
+    arg = nodes[0] if len(nodes) == 1 and d & 1 else (iter(nodes) if (d >> 13) % 2 else nodes)
+    cont.insert_before(anchor, arg)
 
 
 def op_insert_after(w, a, b, c, d):
@@ -270,7 +305,8 @@ def op_insert_after(w, a, b, c, d):
     if anchor is None:
         return None
     nodes = planted_nodes(w, cont, b, d, _valid_for(cont))
-    cont.insert_after(anchor, nodes[0] if len(nodes) == 1 and d & 1 else nodes)
+    arg = nodes[0] if len(nodes) == 1 and d & 1 else ((n for n in nodes) if (d >> 13) % 2 else nodes)
+    cont.insert_after(anchor, arg)
 
 
 def op_node_prepend(w, a, b, c, d):
@@ -310,7 +346,8 @@ def op_remove(w, a, b, c, d):
             nodes[k] = bn
     if not nodes:
         return None
-    cont.remove(nodes[0] if len(nodes) == 1 and (d >> 11) & 1 else nodes, safe=safe)
+    arg = nodes[0] if len(nodes) == 1 and (d >> 11) & 1 else (iter(nodes) if (d >> 13) % 2 else nodes)
+    cont.remove(arg, safe=safe)
 
 
 def op_sort(w, a, b, c, d):
@@ -400,7 +437,11 @@ def op_io_extend(w, a, b, c, d):
     cont, io, outs = _io(w, a, d)
     if cont is None:
         return None
-    io.extend(planted_values(w, cgraph(cont), b, d, outs))
+    vals = planted_values(w, cgraph(cont), b, d, outs)
+    if (d >> 13) % 2:
+        io.extend(v for v in vals)
+    else:
+        io.extend(vals)
 
 
 def op_io_insert(w, a, b, c, d):
@@ -598,7 +639,9 @@ def op_value_name(w, a, b, c, d):
     v = w.value(a)
     if v is None:
         return None
-    if d & 1:
+    if (d >> 1) % 4 == 3 and isinstance(v.const_value, ir.serde.TensorProtoTensor):
+        v.name = REJECTED_TENSOR_NAME
+    elif d & 1:
         g = v.graph
         keys = list(g.initializers) if (g is not None and v.is_initializer()) else []
         v.name = keys[b % len(keys)] if keys else name_from(w, b)
@@ -610,8 +653,18 @@ def op_value_attrs(w, a, b, c, d):
     v = w.value(a)
     if v is None:
         return None
-    k = b % 8
-    if k == 0:
+    k = b % 10
+    if k == 8:
+        # in-place edit of the shape object (allowed on frozen shapes too)
+        if v.shape is None or not len(v.shape):
+            return None
+        v.shape.set_denotation(c % len(v.shape), ["DATA_BATCH", "DATA_CHANNEL", None][(c // 7) % 3])
+    elif k == 9:
+        # in-place edit of the type object
+        if v.type is None or not hasattr(v.type, "denotation"):
+            return None
+        v.type.denotation = ["TENSOR", "IMAGE", None][(c // 7) % 3]
+    elif k == 0:
         v.type = ir.TensorType(DTYPES[c % len(DTYPES)]) if c % 3 else None
     elif k == 1:
         v.dtype = DTYPES[c % len(DTYPES)]
@@ -657,6 +710,26 @@ def op_node_attrs(w, a, b, c, d):
             del n.attributes[keys[c % len(keys)]]
         else:
             n.metadata_props["mk"] = f"{c % 3}"
+
+
+def op_attr_graph(w, a, b, c, d):
+    """Attach / replace / delete a graph-valued attribute (changes which subgraphs a node owns)."""
+    n = w.node(a)
+    if n is None:
+        return None
+    k = d % 3
+    if k == 0:
+        g = pick_where(w.graphs, b, lambda g: True)
+        if g is None:
+            return None
+        n.attributes["body"] = ir.AttrGraph("body", g)
+    elif k == 1:
+        keys = [k_ for k_, a_ in n.attributes.items() if a_.type in (ir.AttributeType.GRAPH, ir.AttributeType.GRAPHS)]
+        if not keys:
+            return None
+        del n.attributes[keys[b % len(keys)]]
+    else:
+        n.attributes.add(ir.AttrInt64s("axes", [b % 3, c % 3]))
 
 
 def op_rename_values(w, a, b, c, d):
@@ -729,6 +802,7 @@ OPS = {
     "value_attrs": op_value_attrs,
     "node_attrs": op_node_attrs,
     "rename_values": op_rename_values,
+    "attr_graph": op_attr_graph,
 }
 CONSTRUCTORS = {"new_value", "new_node", "new_node_with_outputs", "new_node_subgraph", "new_graph", "new_function", "new_model"}
 # weights for random histories (edits dominate; construction keeps the registry growing slowly)
@@ -738,7 +812,7 @@ WEIGHTS = {
     "replace_input": 7, "resize_inputs": 3, "resize_outputs": 3, "rauw": 4, "conv_rauw": 3, "replace_nodes_and_values": 2,
     "io_append": 4, "io_extend": 4, "io_insert": 4, "io_pop": 3, "io_remove": 3, "io_clear": 1, "io_setitem": 4, "io_setslice": 4, "io_delitem": 4, "io_reverse": 1, "io_iadd": 1,
     "init_setitem": 4, "init_add": 3, "init_register": 2, "init_delitem": 3, "init_pop": 2, "init_clear": 1, "init_update": 3, "init_setdefault": 2,
-    "value_name": 5, "value_attrs": 4, "node_attrs": 3, "rename_values": 4,
+    "value_name": 5, "value_attrs": 4, "node_attrs": 3, "rename_values": 4, "attr_graph": 2,
 }  # fmt: skip
 
 
